@@ -166,6 +166,10 @@ class LiteSilicon(T3TSilicon):
                 return self._err(0x09, 0x01, 0xA8)
             if not self._store(bn, d, with_mac=False):
                 return self._err(0x09, 0x01, 0xA8)
+            if self.lite_s and bn != RC:
+                # Lite-S: the write counter advances with every write to non-volatile memory, with or without MAC
+                n = int.from_bytes(self.blk[WCNT][0:3], "little") + 1
+                self.blk[WCNT][0:3] = n.to_bytes(3, "little")
             self.state_changes += 1
             self.write_log.append(bn)
             self.write_units.append((16 * bn, 16))
